@@ -275,7 +275,7 @@ def flat(seq):
 BR_CORE = ['[ab]', '[!a]']
 BR_FULL = ['[ab]', '[!a]', '[^a]', '[a-c]', '[!a-c]', '[]a]', '[a-]', '[-a]', '[.]', '[!.]', '[\\]]', '[a\\-c]',
            '[!]a]', '[a.]', '[[:alpha:]b]', '[![:upper:]]', '[[:digit:]a-c]', '[a-c[:digit:]]', '[\\a]', '[a!]',
-           '[a^]', '[*?]', '[a|b]', '[(]', '[/]', '[\\/]', '[!\\/]', '[a\\/b]', '[a-\\c-+]', '[a-\\c-e]', '[!\\a-\\c-]'] + \
+           '[a^]', '[*?]', '[a|b]', '[(]', '[/]', '[\\/]', '[!\\/]', '[a\\/b]', '[a-\\c-+]', '[a-\\c-e]', '[!\\a-\\c-]', '[+---*]', '[!+---*]', '[%---#]', '[+--*]'] + \
     ['[[:%s:]]' % k for k in sorted(POSIX)] + ['[![:%s:]]' % k for k in ('alpha', 'space', 'punct', 'word')]
 ESC_LITS = ['*', '?', '[', '\\', '(', '|', '!', ')', ']', '+', '@', '.', 'a']
 
